@@ -634,6 +634,10 @@ func (w *c01World) oneOp() {
 		w.esmRedeemOp(user)
 		return
 	}
+	if r.Chance(4) {
+		w.sweepOp()
+		return
+	}
 	if len(w.openAuctions()) > 0 && r.Chance(20) {
 		w.bidOp(user)
 		return
@@ -1131,6 +1135,72 @@ func (w *c01World) windOp1() bool {
 		return true
 	}
 	return false
+}
+
+// sweepOp runs the REAL second-generation vault sweep (x/liquidationsV2 `LiquidateVaults`, the begin-block path: every vault of
+// the batch in its own cache context) — often inside a collateral price dip, sometimes with the debt feed switched off (the
+// auction start then fails AFTER the hand-over has moved the collateral, and the wrapper must discard it). Every vault the
+// sweep seized is one `seize` step of the model; a vault it could not seize must be untouched.
+func (w *c01World) sweepOp() {
+	r := w.rng
+	type pre struct {
+		v   vaulttypes.Vault
+		env string
+	}
+	restore := map[uint64]uint64{}
+	if vs := w.vaultsOf(""); len(vs) > 0 && r.Chance(70) {
+		v := vs[r.Intn(len(vs))]
+		vp := w.productByID(v.ExtendedPairVaultID)
+		twa, _ := w.app.MarketKeeper.GetTwa(w.ctx, vp.assetIn)
+		owed := v.AmountOut.Add(v.InterestAccumulated).Add(v.ClosingFeeAccumulated)
+		need := w.crBoundaryIn(vp, owed)
+		if v.AmountIn.IsPositive() && need.IsPositive() && need.IsInt64() && v.AmountIn.IsInt64() && twa.Twa > 0 {
+			f := float64(700+r.Intn(295)) / 1000
+			np := uint64(float64(twa.Twa) * float64(need.Int64()) / float64(v.AmountIn.Int64()) * f)
+			if np == 0 {
+				np = 1
+			}
+			restore[vp.assetIn] = twa.Twa
+			w.setPrice(vp.assetIn, np, true)
+		}
+		ep, _ := w.app.AssetKeeper.GetPairsVault(w.ctx, vp.id)
+		if (!ep.AssetOutOraclePrice && r.Chance(60)) || r.Chance(15) {
+			w.tr.Count(fmt.Sprintf("op:sweep:debt-feed-down:fixed-price-debt=%v", !ep.AssetOutOraclePrice))
+			// the debt asset's feed goes down for this block
+			if tw, f := w.app.MarketKeeper.GetTwa(w.ctx, vp.assetOut); f {
+				w.app.MarketKeeper.SetTwa(w.ctx, markettypes.TimeWeightedAverage{AssetID: vp.assetOut, ScriptID: 12, Twa: tw.Twa, CurrentIndex: 0, IsPriceActive: false, PriceValue: tw.PriceValue})
+				defer func(id uint64, tw markettypes.TimeWeightedAverage) { w.app.MarketKeeper.SetTwa(w.ctx, tw) }(vp.assetOut, tw)
+			}
+		}
+	}
+	var before []pre
+	for _, v := range w.vaultsOf("") {
+		before = append(before, pre{v, w.env(v.AppId, v.ExtendedPairVaultID, v.Id, true)})
+	}
+	if panicked, msg := try(func() { _ = w.app.NewliqKeeper.LiquidateVaults(w.ctx, 0) }); panicked {
+		w.tr.Count("op:sweep:panic")
+		w.t.Logf("sweep panicked: %s", msg)
+	}
+	for a, p := range restore {
+		w.setPrice(a, p, true)
+	}
+	n := 0
+	for _, b := range before {
+		if _, still := w.app.VaultKeeper.GetVault(w.ctx, b.v.Id); still {
+			continue
+		}
+		debt := sdk.ZeroInt()
+		for _, l := range w.app.NewliqKeeper.GetLockedVaults(w.ctx) {
+			if l.OriginalVaultId == b.v.Id && l.InitiatorType == "vault" {
+				debt = l.DebtToken.Amount
+			}
+		}
+		c01Seized[b.v.Id] = c01SeizedRec{world: w, in: b.v.AmountIn, out: b.v.AmountOut, debt: debt}
+		w.tr.Line("vault.msg", "seize", u(b.v.Id), "-", "-", "-", "-", b.env, "ok")
+		n++
+	}
+	w.tr.Count(fmt.Sprintf("op:sweep:seized=%d", minInt(n, 3)))
+	w.state()
 }
 
 // ---- emergency shutdown (x/esm) ----------------------------------------------------------------------------------
